@@ -17,9 +17,9 @@ use serde_json::json;
 use std::collections::BTreeSet;
 
 pub const RULES: [&str; 9] = [
+    "remove_continue",
     "remove_types",
     "remove_compound_assignment",
-    "remove_continue",
     "remove_if_expression",
     "remove_interpolated_string",
     "remove_floor_division",
